@@ -301,6 +301,44 @@ def record_history(ctx, lc, defaults, tid, nobj, ncalls, maxlen=30):
     return {"tid": tid, "ev": ev}
 
 
+def scripted_histories(ctx, lc, defaults, tid0):
+    """Short scripted histories across a shuffle: a query on the parent, the child made by get_shuffled_sequence, the same query
+    on the child (whatever the parent remembered must not reach the child's replies) and on the parent again."""
+    rng = ctx.rng
+    trs = []
+    seqs = ["DRKKGSE", "KRKRDEDEGSGS", "EKRDGSTQ", "KKRREEDDNQ"] + common.random_sequences(rng, ctx.pick(8, 40), 30, 6)
+    for n_, s in enumerate(seqs):
+        defaults.reset()
+        objs = {1: lc.SP(s)}
+        ev = []
+
+        def post():
+            return {"objs": [dict(objmodel.project(objs[i])) if i in objs else {"alive": False} for i in (1, 2, 3)], "spGrps": defaults.sp_groups()}
+
+        def ask(o, kind, name):
+            real = objmodel.one_call(objs[o], kind, name)
+            fresh = objmodel.fresh_reply(lc, defaults, objs[o], kind, name)
+            ctx.evaluations += 1
+            ev.append({"kind": kind, "obj": o, "name": name or kind, "reply": fresh if objmodel.same_reply(real, fresh) else real, "fresh": fresh, "post": post()})
+        ev.append({"kind": "construct", "obj": 1, "seq": list(s), "post": post()})
+        kind, name = rng.choice([("deltaMaxPerm", rng.choice(objmodel.PERM_FLAGS)), ("deltaMaxPerm", None), ("kappa", None), ("deltaMax", None),
+                                 ("derived", "get_Omega"), ("pure", "get_isoelectric_point"), ("html", None)])
+        if n_ % 2 == 0:
+            kind, name = "deltaMaxPerm", rng.choice(objmodel.PERM_FLAGS)
+        ask(1, kind, name)
+        frozen = set(rng.sample(range(len(s)), rng.randint(0, 2)))
+        out = common.call(objs[1].get_shuffled_sequence, frozen)
+        if out[0] != "ok":
+            continue
+        objs[2] = out[1]
+        ev.append({"kind": "shuffle", "obj": 1, "child": 2, "childseq": list(out[1].get_sequence()), "post": post()})
+        ask(2, kind, name)
+        ask(2, "deltaMaxPerm", None)
+        ask(1, kind, name)
+        trs.append({"tid": tid0 + len(trs), "ev": ev})
+    return trs
+
+
 def validate_histories(ctx, trs, nobj):
     consts = {"ObjIds": set(range(1, nobj + 1)), "Pool": set(), "SiteArgs": set(), "PalArgs": set(), "LegacyCache": False}
     verdicts, _ = traces.validate(ctx, "Trace_Object", trs, constants=consts, spec="TSpec", invariants=["TraceInvariants"])
@@ -430,6 +468,7 @@ def run(ctx):
     trs = [record_history(ctx, lc, defaults, i + 1, 3, ctx.rng.randint(30, ctx.pick(80, 200))) for i in range(ctx.pick(12, 80))]
     # one long history (hundreds of calls on the same three objects) (hundreds of calls on the same objects)
     trs.append(record_history(ctx, lc, defaults, len(trs) + 1, 3, ctx.pick(500, 2000)))
+    trs += scripted_histories(ctx, lc, defaults, len(trs) + 1)
     validate_histories(ctx, trs, 3)
     ctx.sample({"trace": [{"kind": e["kind"], "obj": e["obj"], "name": e.get("name")} for e in trs[0]["ev"][:8]]})
     pristine_check(ctx)
